@@ -220,6 +220,17 @@ Record rpc_inv (st : nstate) : Prop := {
   ri_count : N.of_nat (length (call_numbers st)) = n_calls st
 }.
 
+(* what the bookkeeping invariant says about returns: no call number is recorded twice, none is both waiting and returned *)
+Lemma nodup_app_split {A} (l1 l2 : list A) : NoDup (l1 ++ l2) -> NoDup l2 /\ (forall x, In x l1 -> ~ In x l2).
+Proof.
+  induction l1 as [|x l1 IH]; intros N; [split; [exact N|intros ? []]|].
+  cbn [app] in N. inversion N as [|? ? Hx Hn]; subst. destruct (IH Hn) as [N2 D]. split; [exact N2|].
+  intros y [->|Hy] Hr; [apply Hx; apply in_or_app; right; exact Hr|exact (D y Hy Hr)].
+Qed.
+Lemma returned_once st : rpc_inv st ->
+  NoDup (map fst (n_results st)) /\ (forall i, In i (pend_calls st) -> ~ In i (map fst (n_results st))).
+Proof. intros [_ _ N _ _]. unfold call_numbers in N. exact (nodup_app_split _ _ N). Qed.
+
 Lemma rpc_inv_init name c conn : rpc_inv (node_init name c conn).
 Proof. constructor; cbn; try constructor; intros; contradiction. Qed.
 
